@@ -168,11 +168,16 @@ def stream_cases(prop, tier, seed, sched_cases=()):
                              abort=abort)
             add(cap=cap if rng.random() < 0.3 else small, prog=prog, rand_steps=400, rseed=rng.randrange(1 << 30),
                 rand_cdrop=cdrop and rng.random() < 0.4, extra=rng.choice([1, 2, 4]))
-    if prop in ("C10", "C08", "C11"):
-        # free-running stress (no baton): covers lock/wake sites without yield points
-        for _ in range(60 * k):
+    if prop in ("C10", "C08", "C11", "C12"):
+        # free-running stress (no baton): real lock contention, sites without yield points
+        for i in range(60 * k):
             cap = rng.choice([1, 2, 3, 4])
-            add(cap=cap, prog=rand_prog(rng, cap, 5, abort=prop != "C08", wait=True), stress=150 if not T else 600)
+            prog = rand_prog(rng, cap, 6, abort=prop != "C08", wait=True)
+            if i % 3 == 0:
+                # many tiny chunks: long producer critical-section traffic
+                prog = [["write", 1], ["flush", 0]] * rng.choice([8, 20]) + [["drop", 0]]
+                cap = rng.choice([1, 4])
+            add(cap=cap, prog=prog, stress=150 if not T else 600, cdrop=(prop == "C11" and i % 2 == 0))
     if prop in ("C09", "C17", "C11", "C12", "C20"):
         n = {"C09": 700, "C17": 300, "C11": 250, "C12": 200, "C20": 150}[prop] * k
         for _ in range(n):
